@@ -294,6 +294,26 @@ func Dominates(a, b ssa.Instruction) bool {
 type Fact struct {
 	Cond ssa.Value
 	True bool
+	// Bind maps parameters of the helper function the condition lives in to the
+	// caller's arguments (set when a fact was obtained by looking into a helper)
+	Bind map[*ssa.Parameter]ssa.Value
+}
+
+// Arg maps v through the fact's binding: a parameter of the helper the fact
+// comes from stands for the caller's argument.
+func (f Fact) Arg(v ssa.Value) ssa.Value {
+	for i := 0; i < 4; i++ {
+		prm, ok := v.(*ssa.Parameter)
+		if !ok || f.Bind == nil {
+			return v
+		}
+		a, ok := f.Bind[prm]
+		if !ok || a == v {
+			return v
+		}
+		v = a
+	}
+	return v
 }
 
 // Facts lists the atomic conditions implied at block target by the If-edges
@@ -317,7 +337,7 @@ func ExpandCond(v ssa.Value, truth bool) []Fact {
 
 func expandCond(v ssa.Value, truth bool, out *[]Fact, depth int) {
 	if depth > 12 {
-		*out = append(*out, Fact{v, truth})
+		*out = append(*out, Fact{Cond: v, True: truth})
 		return
 	}
 	switch x := v.(type) {
@@ -348,7 +368,7 @@ func expandCond(v ssa.Value, truth bool, out *[]Fact, depth int) {
 				iff, ok := pred.Instrs[len(pred.Instrs)-1].(*ssa.If)
 				if !ok {
 					// unconditional jump into the phi with the short-circuit constant: cannot expand
-					*out = append(*out, Fact{v, truth})
+					*out = append(*out, Fact{Cond: v, True: truth})
 					return
 				}
 				// the edge into the phi block carries the constant; the other edge continues the chain
@@ -362,5 +382,5 @@ func expandCond(v ssa.Value, truth bool, out *[]Fact, depth int) {
 			return
 		}
 	}
-	*out = append(*out, Fact{v, truth})
+	*out = append(*out, Fact{Cond: v, True: truth})
 }
